@@ -17,6 +17,9 @@ Definition u16 (x : N) : N := x mod 65536.
 Definition be16 (hi lo : N) : N := hi * 256 + lo.
 Definition enc16 (x : N) : bytes := [x / 256; x mod 256].
 
+(* pkts.EncodeUint16 of a value that Go has already truncated to uint16 *)
+Definition enc16w (x : N) : bytes := [(x / 256) mod 256; x mod 256].
+
 Definition len {A} (l : list A) : N := N.of_nat (length l).
 
 (* Equality on byte strings (Go string / bytes.Equal). *)
